@@ -369,6 +369,9 @@ func (stmt *Statement) BuildCondition(query interface{}, args ...interface{}) []
 						conds = append(conds, clause.Eq{Column: key, Value: v[key]})
 					} else if _, ok := v[key].(Valuer); ok {
 						conds = append(conds, clause.Eq{Column: key, Value: v[key]})
+					} else if reflectValue.Type().Elem().Kind() == reflect.Uint8 {
+						// a []byte is one value, not a list
+						conds = append(conds, clause.Eq{Column: key, Value: v[key]})
 					} else {
 						// optimize reflect value length
 						valueLen := reflectValue.Len()
